@@ -528,4 +528,146 @@ example :
     ∧ autoCliX exBody' true (.func "g" [⟨"b", .posOrKw, some (.tok "2"), false⟩]) { sdTop := [("zz", .tok "9")] } { top := [] }
       = .error .crash := by decide
 
+/-! ## the dispatch theorem for component trees of any depth -/
+
+/-- what `bind` returns, spelled out: one entry per named parameter of THIS signature, in signature order, each holding
+    the value given for that very name, or — when none is given — the parameter's own default: nothing is dropped and
+    nothing else gets in -/
+theorem bind_exact_aux (given : KV) : ∀ (l : List Param) (r : KV), mapO (bindParam given) l = some r →
+    r.map (·.1) = l.map (·.name)
+    ∧ ∀ e ∈ r, lookup e.1 given = some e.2 ∨ (lookup e.1 given = .none ∧ ∃ p ∈ l, p.name = e.1 ∧ effDefault p = some e.2)
+  | [], r, h => by
+    simp only [mapO] at h
+    cases h
+    exact ⟨rfl, by intro e he; cases he⟩
+  | p :: l, r, h => by
+    simp only [mapO] at h
+    split at h
+    · cases h
+    · rename_i b hb
+      split at h
+      · cases h
+      · rename_i bs hbs
+        cases h
+        obtain ⟨ih1, ih2⟩ := bind_exact_aux given l bs hbs
+        have hb' : b.1 = p.name ∧ (lookup b.1 given = some b.2 ∨ (lookup b.1 given = .none ∧ effDefault p = some b.2)) := by
+          simp only [bindParam] at hb
+          split at hb
+          · rename_i v hv
+            cases hb
+            exact ⟨rfl, Or.inl hv⟩
+          · rename_i hv
+            cases hd : effDefault p with
+            | none => simp [hd] at hb
+            | some d =>
+              simp only [hd, Option.map_some] at hb
+              cases hb
+              exact ⟨rfl, Or.inr ⟨hv, rfl⟩⟩
+        refine ⟨by simp [hb'.1, ih1], ?_⟩
+        intro e he
+        rcases List.mem_cons.mp he with rfl | he
+        · rcases hb'.2 with h1 | ⟨h1, h2⟩
+          · exact Or.inl h1
+          · exact Or.inr ⟨h1, p, List.mem_cons_self, hb'.1.symm, h2⟩
+        · rcases ih2 e he with h1 | ⟨h1, q, hq, hq1, hq2⟩
+          · exact Or.inl h1
+          · exact Or.inr ⟨h1, q, List.mem_cons_of_mem _ hq, hq1, hq2⟩
+
+theorem C12_bind_exact (sig : Sig) (given a : KV) (h : Cli.bind sig given = some a) :
+    a.map (·.1) = (sig.filter (fun p => !isVar p)).map (·.name)
+    ∧ ∀ e ∈ a, lookup e.1 given = some e.2 ∨ (lookup e.1 given = .none ∧ ∃ p ∈ sig, p.name = e.1 ∧ effDefault p = some e.2) := by
+  obtain ⟨h1, h2⟩ := bind_exact_aux given _ a h
+  refine ⟨h1, ?_⟩
+  intro e he
+  rcases h2 e he with h | ⟨h, p, hp, hp1, hp2⟩
+  · exact Or.inl h
+  · exact Or.inr ⟨h, p, (List.mem_filter.mp hp).1, hp1, hp2⟩
+
+/-- the EXCLUDED classes, as one decidable predicate on the selected component: its own signature has distinct names and
+    none of the CLI's own keys `config` / `subcommand` (open finding C12-reserved-names: `C12_binding_needs_guard`,
+    `C12_reserved_*_witness`); for a class with methods, no method signature has a parameter `config` and no method is
+    called `config` (open finding C12-subcommand-name-is-parent-dest: `C12_reserved_method_config_witness`,
+    `C12_other_findings_witness`).  A constructor parameter named like the chosen method is a parse error in the model
+    (`parseComp`), so no run exists for it.  Option names that are proper prefixes of two options of a parser above (open
+    finding C12-prefix-of-parent-options) are argparse's abbreviation matching, outside this model. -/
+def dispatchGuard : Comp → Bool
+  | .func _ sig => distinctNames sig && noReserved sig
+  | .cls _ init ms => distinctNames init && noReserved init
+      && ms.all (fun md => distinctNames md.sig && noConfigParam md.sig && md.name != "config")
+
+/-- exactly the calls of the selected component: a function once; a class without methods constructed once; a class with
+    methods constructed once and THEN the chosen method called once — each with `bind` of ITS OWN signature over the values
+    given for ITS OWN level (`g.top` for the function / constructor, `g.sub` for the method) — and the value of the
+    innermost call returned -/
+def ExactRun (body : Body) (g : Given) (r : Run) : Comp → Prop
+  | .func f sig => ∃ a, Cli.bind sig g.top = some a ∧ r.calls = [⟨.func f, a⟩] ∧ r.ret = body (.func f) a
+  | .cls c init [] => ∃ a, Cli.bind init g.top = some a ∧ r.calls = [⟨.init c, a⟩] ∧ r.ret = body (.init c) a
+  | .cls c init (m0 :: ms) => ∃ m md a1 a2, g.method = some m ∧ md ∈ m0 :: ms ∧ md.name = m
+      ∧ Cli.bind init g.top = some a1 ∧ Cli.bind md.sig g.sub = some a2
+      ∧ r.calls = [⟨.init c, a1⟩, ⟨.method c m, a2⟩] ∧ r.ret = body (.method c m) a2
+
+/-- DISPATCH, for a tree of components of ANY depth (the leaves of a nested dict / list addressed by key paths of any
+    length; the inner levels are the subcommand parsers): `auto_cli` follows the chain of `subcommand` keys to exactly the
+    component at the selected path and runs exactly that component (`ExactRun`): no sibling and no outer level is called,
+    every call is made once, the constructor before the method, each with the parsed values of its own level
+    (`C12_bind_exact`: one argument per own parameter, the given value or the own default), and the innermost call's
+    value is what `auto_cli` returns.  By induction over the key path (`dispatch`: `resolve_chain`). -/
+theorem C12_tree_dispatch (body : Body) (asPos : Bool) (comps : Comps) (path : Key) (g : Given) (r : Run)
+    (hwk : wellKeyed comps = true) (h : autoCliTree body asPos comps path g = .ok r) :
+    ∃ comp, lookupComp path comps = some comp ∧ (dispatchGuard comp = true → ExactRun body g r comp) := by
+  obtain ⟨comp, cfg, h1, h2, h3⟩ := C12_dispatch body asPos comps path g r hwk h
+  refine ⟨comp, h1, ?_⟩
+  intro hg
+  cases comp with
+  | func f sig =>
+    simp only [dispatchGuard, Bool.and_eq_true] at hg
+    exact run_func body asPos false f sig g cfg r hg.1 hg.2 h2 h3
+  | cls c init ms =>
+    simp only [dispatchGuard, Bool.and_eq_true, List.all_eq_true] at hg
+    cases ms with
+    | nil => exact run_cls_plain body asPos false c init g cfg r hg.1.1 hg.1.2 h2 h3
+    | cons m0 ms =>
+      exact run_cls body asPos false c init m0 ms g cfg r hg.1.1 hg.1.2
+        (fun md hmd => (hg.2 md hmd).1.1) (fun md hmd => (hg.2 md hmd).1.2)
+        (fun md hmd => by simpa using (hg.2 md hmd).2) h2 h3
+
+/-- the same for a single component at the root, with positional-only parameters and `set_defaults` absent
+    (`C12_ext_conservative`) -/
+theorem C12_root_dispatch (body : Body) (asPos : Bool) (comp : Comp) (po1 po2 : List String) (g : Given) (r : Run)
+    (h1 : poHit po1 (topSig comp) = false) (h2 : poHit po2 (chosenSig comp g.method) = false)
+    (hg : dispatchGuard comp = true)
+    (h : autoCliX body asPos comp { poTop := po1, poSub := po2 } g = .ok r) : ExactRun body g r comp := by
+  rw [C12_ext_conservative body asPos comp po1 po2 g h1 h2] at h
+  cases comp with
+  | func f sig =>
+    simp only [dispatchGuard, Bool.and_eq_true] at hg
+    exact C12_binding body asPos f sig g r hg.1 hg.2 h
+  | cls c init ms =>
+    simp only [dispatchGuard, Bool.and_eq_true, List.all_eq_true] at hg
+    cases ms with
+    | nil => exact C12_class_plain body asPos c init g r hg.1.1 hg.1.2 h
+    | cons m0 ms =>
+      exact C12_class body asPos c init m0 ms g r hg.1.1 hg.1.2
+        (fun md hmd => (hg.2 md hmd).1.1) (fun md hmd => (hg.2 md hmd).1.2)
+        (fun md hmd => by simpa using (hg.2 md hmd).2) h
+
+/-- the excluded class is real: the witness of C12-reserved-names violates `dispatchGuard` (and `ExactRun`) -/
+example : dispatchGuard (.func "g" [⟨"subcommand", .posOrKw, some (.tok "dflt"), false⟩, ⟨"x", .posOrKw, some (.tok "1"), false⟩]) = false
+    ∧ dispatchGuard (.cls "K" [] [⟨"config", [⟨"x", .posOrKw, some (.tok "2"), false⟩]⟩, ⟨"other", []⟩]) = false := by decide
+
+/-- non-vacuity on a tree of depth 3: `{"grp": {"sub": {"fit": f, "tool": T}, "other": h}, "top": h}` run as
+    `grp sub tool --p=1 run 5`: `T` is constructed with its own `p`, then `T.run` is called with its own `x` (and default
+    `y`); `f`, `h` are not called; the method's value is returned; the tree is well keyed and every component passes the guard -/
+example :
+    let f : Comp := .func "f" [⟨"p", .posOrKw, some (.tok "9"), false⟩, ⟨"x", .posOrKw, some (.tok "8"), false⟩]
+    let h : Comp := .func "h" [⟨"x", .posOrKw, some (.tok "1"), false⟩]
+    let t : Comp := .cls "T" [⟨"p", .posOrKw, .none, false⟩, ⟨"q", .kwOnly, some (.tok "0"), false⟩]
+      [⟨"run", [⟨"x", .posOrKw, .none, false⟩, ⟨"y", .kwOnly, some (.tok "3"), false⟩]⟩, ⟨"stop", []⟩]
+    let comps : Comps := [(["grp", "sub", "fit"], f), (["grp", "sub", "tool"], t), (["grp", "other"], h), (["top"], h)]
+    wellKeyed comps = true ∧ comps.all (fun e => dispatchGuard e.2) = true
+    ∧ autoCliTree exBody true comps ["grp", "sub", "tool"] { top := [("p", .tok "1")], method := some "run", sub := [("x", .tok "5")] }
+      = .ok ⟨[⟨.init "T", [("p", .tok "1"), ("q", .tok "0")]⟩, ⟨.method "T" "run", [("x", .tok "5"), ("y", .tok "3")]⟩], .tok "run"⟩
+    ∧ autoCliTree exBody true comps ["grp", "sub", "fit"] { top := [("x", .tok "2")] }
+      = .ok ⟨[⟨.func "f", [("p", .tok "9"), ("x", .tok "2")]⟩], .tok "f"⟩ := by decide
+
 end Jap.Props.C12
